@@ -1175,6 +1175,136 @@ def run_asm_hist(case):
     return r
 
 
+# ---- slice: blocks of DIFFERENT dtypes in one assembler (incl. incomparable pairs) ----------------
+MIX_DT = ("bool", "int8", "uint8", "int16", "uint16", "int32", "uint32", "int64", "uint64", "float32", "float64")
+MIX_DT3 = ("int8", "uint8", "int32", "float32")  # alphabet of the triples (quick); thorough: + uint16, int64, float64
+_FILL = "<fill>"
+
+
+def extreme_values(dt):
+    """four values at the extremes of the block's own dtype, as exact python numbers."""
+    dt = np.dtype(dt)
+    if dt.kind == "b":
+        return [False, True, True, False]
+    if dt.kind == "i":
+        ii = np.iinfo(dt)
+        return [int(ii.min), int(ii.max), -1, 1]
+    if dt.kind == "u":
+        ii = np.iinfo(dt)
+        return [0, int(ii.max), int(ii.max) - 1, 1]
+    fi = np.finfo(dt)
+    return [float(fi.min), float(fi.max), -1.0, float(2 ** (fi.nmant + 1))]  # last: max precise integer
+
+
+def gen_asm_mixed(tier):
+    def gen():
+        # ordered pair (dtype of tile 0, dtype of tile 1) x insertion order of the mapping
+        for a in MIX_DT:
+            for b in MIX_DT:
+                for order in ((0, 1), (1, 0)):
+                    yield ((a, b), order)
+        d3 = MIX_DT3 if tier == "quick" else MIX_DT3 + ("uint16", "int64", "float64")
+        for a in d3:
+            for b in d3:
+                for c in d3:
+                    for order in itertools.permutations(range(3)):
+                        yield ((a, b, c), order)
+
+    return gen
+
+
+def run_asm_mixed(case):
+    dts, order = case
+    k = len(dts)
+    chy, chx = (2,), (2,) * k + (1,)  # k blocks of 2x2 and one absent 2x1 tile (fill cells)
+    H, W = 2, 2 * k + 1
+    # exact mosaic (python numbers in an object array) and numpy's own promotion of every value as reference
+    bdt = [np.dtype(d) for d in dts]
+    Rdt = np.result_type(*bdt)
+    exact = np.full((H, W), _FILL, dtype=object)
+    ref = np.full((H, W), _FILL, dtype=object)
+    arrays = []
+    for t, dt in enumerate(bdt):
+        vals = extreme_values(dt)
+        blk = np.array(vals, dtype=dt).reshape(2, 2)
+        assert blk.reshape(-1).tolist() == vals  # harness sanity: the block holds the exact values
+        arrays.append(blk)
+        ex = np.empty((2, 2), dtype=object)
+        ex.reshape(-1)[:] = vals
+        exact[:, 2 * t:2 * t + 2] = ex
+        rf = np.empty((2, 2), dtype=object)
+        rf.reshape(-1)[:] = blk.astype(Rdt).reshape(-1).tolist()
+        ref[:, 2 * t:2 * t + 2] = rf
+    blocks = {(0, t): arrays[t] for t in order}  # insertion order of the mapping
+    names = [d.name for d in bdt]
+    pair = "+".join(sorted(set(names), key=MIX_DT.index))
+    ocls = "single-dtype" if len(set(names)) == 1 else "inserted:" + ">".join(names[t] for t in order)
+    nested = all(np.can_cast(d, Rdt, "safe") for d in bdt) and Rdt in bdt
+    lossy = bool((exact != ref).any())
+    r = R(outcome=f"{'nested' if nested else 'incomparable'}:{Rdt.name}:{'numpy-promotion-lossy' if lossy else 'exact'}"
+                  f":{k}blocks", nontrivial=len(set(names)) > 1, counts={})
+    key = f"BlockAssembler:mixed-dtype:{pair}:{ocls}"
+
+    st, asm = call(BlockAssembler, blocks, (chy, chx))
+    if st != "ok":
+        return r.fail(f"{key}:raises:constructor", f"{case}: BlockAssembler(...) raised {asm}")
+    D = np.dtype(asm.dtype)
+    # (a) the advertised dtype holds every block dtype (numpy's 'safe' cast) and is numpy's promotion of them
+    bad = [d.name for d in bdt if not np.can_cast(d, D, "safe")]
+    if bad:
+        r.fail(f"{key}:dtype-cannot-hold-block-dtype",
+               f"{case}: asm.dtype = {D} cannot hold {bad} safely; numpy promotes {names} to {Rdt}")
+    elif D != Rdt:
+        r.fail(f"{key}:dtype-not-numpy-promotion", f"{case}: asm.dtype = {D}; np.result_type of {names} is {Rdt}")
+
+    def cell_ok(g, e, f):
+        if isinstance(e, str):  # absent tile: default fill
+            return (g != g) if D.kind == "f" else (g == 0)
+        if g == e:  # python compares int/float/bool exactly
+            return True
+        return e != f and g == f  # value that numpy's promotion itself cannot hold: numpy's rounding is the reference
+
+    nwin = 0
+
+    def judge(tag, fn, roi):
+        nonlocal nwin
+        nwin += 1
+        st, got = call(fn)
+        if st != "ok":
+            r.fail(f"{key}:raises:{tag}", f"{case}: {tag}({roi}) raised {got}")
+            return False
+        ew, fw = (exact, ref) if roi is None else (exact[roi], ref[roi])
+        if not isinstance(got, np.ndarray) or got.shape != ew.shape:
+            r.fail(f"{key}:shape", f"{case}: {tag}({roi}) -> shape {getattr(got, 'shape', None)} want {ew.shape}")
+            return False
+        if got.dtype != D:
+            r.fail(f"{key}:extract-dtype", f"{case}: {tag}({roi}).dtype = {got.dtype}, asm.dtype = {D}")
+            return False
+        gl = got.reshape(-1).tolist()
+        for i, (g, e, f) in enumerate(zip(gl, ew.reshape(-1).tolist(), fw.reshape(-1).tolist())):
+            if not cell_ok(g, e, f):
+                what = "fill" if isinstance(e, str) else "values"
+                r.fail(f"{key}:{what}",
+                       f"{case}: {tag}({roi}) ({got.dtype}) cell {i}: got {g!r}, exact mosaic value {e!r}"
+                       + (f" (numpy's promotion to {Rdt} gives {f!r})" if e != f else ""))
+                return False
+        return True
+
+    ok = judge("extract", asm.extract, None)
+    # every normalised window
+    for a in range(H + 1):
+        for b in range(a, H + 1):
+            for c in range(W + 1):
+                for d in range(c, W + 1):
+                    roi = (slice(a, b), slice(c, d))
+                    if not judge("asm[window]", lambda roi=roi: asm[roi], roi) and not ok:
+                        break
+    r.counts["assembler_windows"] = nwin
+    if lossy:
+        r.counts["obs:mixed-dtype:numpy-promotion-cannot-hold-64-bit-extremes:" + pair] = 1
+    return r
+
+
 # ---------------------------------------------------------------------------------------------
 def slices(tier):
     tl = gen_tilings(tier)
@@ -1207,6 +1337,9 @@ def slices(tier):
                  "N-d index forms: ints/slices on leading/trailing axes, short tuples, planes_yx"),
         e1.Slice("asm-dtype-fill", gen_asm_dtype(tier), run_asm_dtype,
                  "per-block dtype (incl. mixed, absent) x fill value x explicit dtype"),
+        e1.Slice("asm-mixed-dtype", gen_asm_mixed(tier), run_asm_mixed,
+                 "blocks of different dtypes in one assembler: every ordered pair of 11 dtypes (and triples) x every "
+                 "insertion order of the mapping, values at each dtype's extremes, every window; exact python mosaic"),
         e1.Slice("asm-history", gen_asm_hist(tier), run_asm_hist,
                  "call histories on ONE assembler: every single request, ordered pair and triples from a menu of 8 "
                  "requests x block-dtype/presence scenes x {2-d, time+yx}; each answer vs a fresh instance and vs numpy"),
@@ -1235,6 +1368,10 @@ def main(ctx):
         "assembler_windows": "every 0<=a<=b<=N per axis; every spelling in {None}+[-N,N] and ints on 3 layouts",
         "assembler_axes": list(CFGS),
         "dtypes": list(DT.values()), "fills": list(FILLS), "explicit_dtype": [str(d) for d in OUT_DT],
+        "assembler_mixed_dtypes": f"ordered pairs of {list(MIX_DT)} x both insertion orders; ordered triples of "
+                                  f"{list(MIX_DT3) if q else list(MIX_DT3) + ['uint16', 'int64', 'float64']} x all 6 "
+                                  "insertion orders; block values: min, max, -1 (max-1 if unsigned), 1 / for floats "
+                                  "min, max, -1, 2^(mantissa bits); every window 0<=a<=b<=N",
         "assembler_histories": f"requests {list(HREQ)}: all singles, all ordered pairs, all triples over "
                                f"{list(HREQ_CORE) if q else list(HREQ)}; {len(H_STATES2) + len(H_STATES4)} block scenes x "
                                f"{list(H_CFGS)}",
@@ -1255,6 +1392,10 @@ def main(ctx):
         "when no fill is given or np.can_cast(np.min_scalar_type(fill), that dtype, 'safe'); otherwise only the "
         "values are judged (every block value and the fill value must come back exactly, so the dtype holds them)",
         "explicit dtype cases are restricted to dtypes that safely hold every block dtype and the fill value",
+        "mixed block dtypes: the reference dtype is np.result_type of the block dtypes (the code's documented "
+        "promotion); every pixel must equal the block's value exactly, except where numpy's promotion itself cannot "
+        "hold the value (64-bit integer extremes promoted to float64, e.g. int64+uint64, int64+float32): there "
+        "numpy's correctly rounded conversion is the reference and the pair is listed under observations",
     ]
     sl = slices(ctx.tier)
     if ctx.only:
